@@ -338,3 +338,257 @@ Proof.
   destruct (prepare_certificate sch (q_frags q) v root (q_sel q) st' E) as [Hs Ho].
   eapply okl_not_bad; [eapply okl_applies; eauto | exact Hb].
 Qed.
+
+(** [fine]: a result that is neither an error nor a crash. *)
+Definition fine {S} (P : S -> Prop) (r : res S) : Prop :=
+  match r with ROk s => P s | RErr _ => False | RCrash _ => False end.
+
+Lemma fold_res_fine {S} (P : S -> Prop) (f : S -> titem -> res S) (l : list titem) :
+  (forall st x, In x l -> P st -> fine P (f st x)) -> forall st, P st -> fine P (fold_res f st l).
+Proof.
+  induction l as [|x t IH]; intros Hf st Hst; simpl; auto.
+  assert (Hx := Hf st x (or_introl eq_refl) Hst).
+  destruct (f st x) as [st'| |]; simpl in *; try contradiction.
+  apply IH; [intros st0 x0 Hin0 H0; apply Hf; [right; exact Hin0 | exact H0] | exact Hx].
+Qed.
+
+Lemma two_pass_fine {S} (P : S -> Prop) (item : bool -> S -> titem -> res S) (l : list titem) :
+  (forall b st x, In x l -> P st -> fine P (item b st x)) -> forall st, P st -> fine P (two_pass item st l).
+Proof.
+  intros Hf st Hst. unfold two_pass.
+  assert (H1 := fold_res_fine P (item true) l (Hf true) st Hst).
+  destruct (fold_res (item true) st l) as [st'| |]; simpl in *; try contradiction.
+  apply fold_res_fine; auto.
+Qed.
+
+Lemma two_pass_rev_fine {S} (P : S -> Prop) (item : bool -> S -> titem -> res S) (l : list titem) :
+  (forall b st x, In x l -> P st -> fine P (item b st x)) -> forall st, P st -> fine P (two_pass_rev item st l).
+Proof.
+  intros Hf st Hst. unfold two_pass_rev.
+  assert (H1 := fold_res_fine P (item false) l (Hf false) st Hst).
+  destruct (fold_res (item false) st l) as [st'| |]; simpl in *; try contradiction.
+  apply fold_res_fine; auto.
+Qed.
+
+(** * C14 (a): a validated query cannot meet a shape error in the reference evaluator *)
+Section Progress.
+  Variable sch : schema.
+  Variable tbl : ftable.
+  Variable S : pairs.
+  Variable d : list string.
+  Hypothesis Hs : self_justified sch tbl S.
+  Hypothesis Ht : topo tbl d.
+  Hypothesis Hlen : List.length d <= List.length tbl.
+  Hypothesis Hkeys : incl (map fst tbl) d.
+
+  Definition sel_ok (t : tref) (sel : option (list titem)) : Prop :=
+    match sel with
+    | None => leaf_type sch (named_of t)
+    | Some l => okl sch tbl S (named_of t) l
+    end.
+
+  Definition sf_ok (fs : list (string * tref)) (sf : sfield) : Prop :=
+    let '(alias, name, sub) := sf in
+    (name = "__typename" /\ sub = None) \/
+    (name <> "__typename" /\ exists ft, lookup name fs = Some ft /\ sel_ok ft sub).
+
+  Lemma ex_field f b acc alias name args ds sub :
+    ex_item (Datatypes.S f) tbl b acc (TField alias name args ds sub) = if b then ROk (acc ++ [(alias, name, sub)]) else ROk acc.
+  Proof. reflexivity. Qed.
+  Lemma ex_inline f b acc on ds sub :
+    ex_item (Datatypes.S f) tbl b acc (TInline on ds sub) = if b then ROk acc else two_pass (ex_item (Datatypes.S f) tbl) acc sub.
+  Proof. reflexivity. Qed.
+  Lemma ex_spread f b acc name ds :
+    ex_item (Datatypes.S f) tbl b acc (TSpread name ds) =
+    if b then ROk acc
+    else match lookup name tbl with
+         | None => RCrash CrDanglingFragment
+         | Some (_, body) => two_pass (ex_item f tbl) acc body
+         end.
+  Proof. reflexivity. Qed.
+
+  Lemma okr_field_sf tn fs k a name args ds sub :
+    lookup tn sch = Some (DObject fs k) -> okr sch tbl S tn (TField a name args ds sub) -> sf_ok fs (a, name, sub).
+  Proof.
+    intros E Ho. inversion Ho; subst; try congruence.
+    - left; auto.
+    - right. split; auto. match goal with H : lookup tn sch = Some (DObject ?fs' _) |- _ => rewrite E in H; inversion H; subst end.
+      eexists; split; eauto.
+    - right. split; auto. match goal with H : lookup tn sch = Some (DObject ?fs' _) |- _ => rewrite E in H; inversion H; subst end.
+      eexists; split; eauto. simpl. split; auto.
+  Qed.
+
+  (** Expansion under an object type. *)
+  Lemma ex_item_ok tn fs k (E : lookup tn sch = Some (DObject fs k)) fuel :
+    forall d', topo tbl d' -> List.length d' < fuel ->
+    forall it b acc, okr sch tbl S tn it -> incl (sib it) d' -> Forall (sf_ok fs) acc ->
+                     fine (Forall (sf_ok fs)) (ex_item fuel tbl b acc it).
+  Proof.
+    induction fuel as [|f IHf]; intros d' Ht' Hl'; [lia|].
+    induction it using titem_ind'; intros b acc Ho Hsib Hacc.
+    - rewrite ex_field. destruct b; simpl; auto.
+      apply Forall_app; split; auto. constructor; auto. eapply okr_field_sf; eauto.
+    - rewrite ex_field. destruct b; simpl; auto.
+      apply Forall_app; split; auto. constructor; auto. eapply okr_field_sf; eauto.
+    - rewrite ex_spread. destruct b; simpl; auto.
+      assert (Hn : In n d') by (apply Hsib; simpl; auto).
+      destruct (topo_split tbl d' n Ht' Hn) as [d2 [on [body [Hlk [Hi [Ht2 Hlen2]]]]]].
+      rewrite Hlk.
+      inversion Ho; subst; try congruence.
+      match goal with H : In (tn, n) S |- _ => destruct (Hs _ H) as [on' [body' [Hl2 [_ Hf2]]]] end.
+      simpl in Hl2, Hf2. rewrite Hlk in Hl2. inversion Hl2; subst.
+      apply two_pass_fine; auto.
+      intros b0 acc0 x Hin Hacc0. apply (IHf d2); auto; [lia | rewrite Forall_forall in Hf2; auto |].
+      intros y Hy. apply Hi. apply in_flat_map. exists x. split; auto. apply sib_incl; auto.
+    - rewrite ex_inline. destruct b; simpl; auto.
+      inversion Ho; subst; try congruence.
+      apply two_pass_fine; auto.
+      intros b0 acc0 x Hin Hacc0. rewrite Forall_forall in H. apply H; auto.
+      + match goal with H : Forall (okr sch tbl S tn) l |- _ => rewrite Forall_forall in H; auto end.
+      + simpl in Hsib. eapply incl_flat_map_in; eauto.
+  Qed.
+
+  Lemma okr_sib_keys tn fs k (E : lookup tn sch = Some (DObject fs k)) :
+    forall it, okr sch tbl S tn it -> incl (sib it) d.
+  Proof.
+    induction it using titem_ind'; intros Ho; simpl; try apply incl_nil_l.
+    - inversion Ho; subst; try congruence.
+      intros x [Hx|[]]; subst. apply Hkeys.
+      match goal with H : lookup x tbl = Some _ |- _ => apply lookup_In in H; apply in_map_iff; eexists; split; [|exact H]; reflexivity end.
+    - inversion Ho; subst; try congruence.
+      intros x Hx. apply in_flat_map in Hx. destruct Hx as [y [Hy Hx]].
+      rewrite Forall_forall in H. apply (H y Hy); auto.
+      match goal with H : Forall (okr sch tbl S tn) l |- _ => rewrite Forall_forall in H; auto end.
+  Qed.
+
+  Lemma expand_obj_ok tn fs k items :
+    lookup tn sch = Some (DObject fs k) -> Forall (okr sch tbl S tn) items ->
+    exists sfs, expand_obj tbl items = ROk sfs /\ Forall (sf_ok fs) sfs.
+  Proof.
+    intros E Hf. unfold expand_obj.
+    assert (Hg : fine (Forall (sf_ok fs)) (two_pass (ex_item (Datatypes.S (List.length tbl)) tbl) [] items)).
+    { apply two_pass_fine; auto. intros b acc x Hin Hacc. rewrite Forall_forall in Hf.
+      apply (ex_item_ok tn fs k E _ d); auto; [lia|]. eapply okr_sib_keys; eauto. }
+    destruct (two_pass (ex_item (Datatypes.S (List.length tbl)) tbl) [] items) as [sfs| |]; simpl in Hg; try contradiction.
+    eauto.
+  Qed.
+
+  (** Expansion under a union whose runtime member is [m]. *)
+  Lemma ux_item_ok tn ms m fs k :
+    lookup tn sch = Some (DUnion ms) -> In m ms -> lookup m sch = Some (DObject fs k) ->
+    forall it b acc, okr sch tbl S tn it -> Forall (sf_ok fs) acc -> fine (Forall (sf_ok fs)) (ux_item tbl m b acc it).
+  Proof.
+    intros E Hm Em it b acc Ho Hacc. destruct it as [a name args ds sub|n ds|on ds sub]; simpl.
+    - destruct b; simpl; auto. apply Forall_app; split; auto. constructor; auto.
+      inversion Ho; subst; try congruence. left; auto.
+    - destruct b; simpl; auto.
+      inversion Ho; subst; try congruence.
+      match goal with H : lookup n tbl = Some (?on', ?body') |- _ => rewrite H end.
+      match goal with |- context [String.eqb ?x m] => destruct (String.eqb x m) eqn:Eq end; simpl; auto.
+      apply String.eqb_eq in Eq; subst.
+      match goal with H : lookup tn sch = Some (DUnion ?ms') , H2 : In m ?ms' -> In _ S |- _ =>
+                        rewrite E in H; inversion H; subst; destruct (Hs _ (H2 Hm)) as [on' [body' [Hl2 [_ Hf2]]]] end.
+      simpl in Hl2, Hf2.
+      match goal with H : lookup n tbl = Some (m, ?b) |- _ => rewrite H in Hl2; injection Hl2 as Ha Hb end.
+      rewrite <- Hb in Hf2.
+      destruct (expand_obj_ok m fs k _ Em Hf2) as [sfs [Hx Hok]]. rewrite Hx. simpl.
+      apply Forall_app; split; auto.
+    - destruct b; simpl; auto.
+      destruct (String.eqb on m) eqn:Eq; simpl; auto. apply String.eqb_eq in Eq; subst.
+      inversion Ho; subst; try congruence.
+      match goal with H : lookup tn sch = Some (DUnion ?ms'), H2 : In m ?ms' -> _ |- _ =>
+                        rewrite E in H; inversion H; subst; destruct (H2 Hm) as [_ Hf2] end.
+      destruct (expand_obj_ok m fs k _ Em Hf2) as [sfs [Hx Hok]]. rewrite Hx. simpl.
+      apply Forall_app; split; auto.
+  Qed.
+
+  Lemma expand_union_ok tn ms m fs k items :
+    lookup tn sch = Some (DUnion ms) -> In m ms -> lookup m sch = Some (DObject fs k) ->
+    Forall (okr sch tbl S tn) items ->
+    exists sfs, expand_union tbl m items = ROk sfs /\ Forall (sf_ok fs) sfs.
+  Proof.
+    intros E Hm Em Hf. unfold expand_union.
+    assert (Hg : fine (Forall (sf_ok fs)) (two_pass_rev (ux_item tbl m) [] items)).
+    { apply two_pass_rev_fine; auto. intros b acc x Hin Hacc. rewrite Forall_forall in Hf.
+      eapply ux_item_ok; eauto. }
+    destruct (two_pass_rev (ux_item tbl m) [] items) as [sfs| |]; simpl in Hg; try contradiction. eauto.
+  Qed.
+
+  Lemma composite_not_leaf n : composite sch n -> leaf_type sch n -> False.
+  Proof. intros [[fs [k H]]|[ms H]] [H2|[vs H2]]; congruence. Qed.
+
+  Lemma eval_progress fuel :
+    (forall entry t sel v, has_type sch entry t v -> sel_ok t sel -> eval sch tbl fuel t sel v <> EShape) /\
+    (forall tn fs flds sfs, fields_typed sch fs flds -> Forall (sf_ok fs) sfs ->
+                            eval_fields sch tbl fuel tn fs flds sfs <> EShape).
+  Proof.
+    induction fuel as [|f [IH1 IH2]]; [split; intros; simpl; discriminate|]. split.
+    - intros entry t sel v Hty Hsel. destruct t as [n|t'|t']; simpl.
+      + simpl in Hsel.
+        destruct (lookup n sch) as [[|vs|fs k|ms]|] eqn:E.
+        * destruct sel as [l|].
+          { exfalso. destruct Hsel as [[[fs [k H]]|[ms H]] _]; simpl in H; congruence. }
+          destruct v; try discriminate; inversion Hty; subst; congruence.
+        * destruct sel as [l|].
+          { exfalso. destruct Hsel as [[[fs [k H]]|[ms H]] _]; simpl in H; congruence. }
+          destruct v; try discriminate; inversion Hty; subst; congruence.
+        * destruct sel as [items|].
+          2:{ exfalso. destruct Hsel as [H|[vs H]]; simpl in H; congruence. }
+          destruct Hsel as [_ Hf].
+          destruct v as [| | | |tn' flds]; try discriminate; try (inversion Hty; subst; congruence).
+          inversion Hty; subst; try congruence.
+          match goal with H1 : lookup ?x sch = Some (DObject ?a ?b), H2 : lookup ?x sch = Some (DObject ?c ?e) |- _ =>
+                            rewrite H1 in H2; inversion H2; subst; simpl in Hf end.
+          match goal with H1 : lookup ?x sch = Some (DObject ?a ?b) |- _ =>
+                            destruct (expand_obj_ok x a b items H1 Hf) as [sfs [Hx Hok]] end.
+          rewrite Hx. apply IH2; auto.
+        * destruct sel as [items|].
+          2:{ exfalso. destruct Hsel as [H|[vs H]]; simpl in H; congruence. }
+          destruct Hsel as [_ Hf].
+          destruct v as [| | | |m flds]; try discriminate; try (inversion Hty; subst; congruence).
+          inversion Hty; subst; try congruence.
+          match goal with H1 : lookup ?x sch = Some (DUnion ?a), H2 : lookup ?x sch = Some (DUnion ?c) |- _ =>
+                            rewrite H1 in H2; inversion H2; subst; simpl in Hf end.
+          match goal with HU : lookup ?x sch = Some (DUnion ?a), HM : In ?mm ?a, H : lookup ?mm sch = Some (DObject ?fs' ?k') |- _ =>
+                            rewrite H; destruct (expand_union_ok x a mm fs' k' items HU HM H Hf) as [sfs [Hx Hok]] end.
+          rewrite Hx. apply IH2; auto.
+        * exfalso. destruct sel as [l|].
+          -- destruct Hsel as [[[fs [k H]]|[ms H]] _]; simpl in H; congruence.
+          -- destruct Hsel as [H|[vs H]]; simpl in H; congruence.
+      + destruct v as [| | |l|]; try discriminate; try (inversion Hty; subst; congruence).
+        inversion Hty; subst.
+        clear Hty. match goal with H : Forall (has_type sch true t') l |- _ => induction H as [|x r Hx Hr IHl] end; [discriminate|].
+        pose proof (IH1 true t' sel x Hx Hsel) as Hnx.
+        destruct (eval sch tbl f t' sel x) as [j0| |]; try congruence;
+          match goal with |- context [match ?G with _ => _ end] => destruct G as [[| | | |js|]| |] end;
+          try discriminate; try congruence; exfalso; apply IHl; reflexivity.
+      + inversion Hty; subst. apply IH1 with (entry := entry); auto.
+    - intros tn fs flds sfs Hft Hok. simpl.
+      destruct sfs as [|[[alias name] sub] r]; [discriminate|].
+      inversion Hok as [|x0 l0 Hhead Hrest]; subst.
+      pose proof (IH2 tn fs flds r Hft Hrest) as Hr.
+      destruct Hhead as [[Hn Hsub]|[Hn [ft [Hl Hsel]]]].
+      + subst. rewrite String.eqb_refl.
+        destruct (eval_fields sch tbl f tn fs flds r) as [[| | | | |kvs]| |]; try discriminate; congruence.
+      + rewrite (neq_eqb _ _ Hn), Hl.
+        inversion Hft as [fs0 flds0 Hall]; subst.
+        destruct (Hall name ft Hl) as [v' [Hv' Hty']]. rewrite Hv'.
+        pose proof (IH1 false ft sub v' Hty' Hsel) as Hh.
+        destruct (eval sch tbl f ft sub v') as [j0| |]; try congruence;
+          destruct (eval_fields sch tbl f tn fs flds r) as [[| | | | |kvs]| |]; try discriminate; congruence.
+  Qed.
+End Progress.
+
+Lemma progress_all v v' doc vars q c sch root n data fuel :
+  convert v doc vars = ROk (q, c) -> prepare v' sch root q = ROk n ->
+  has_type sch false (TNamed root) data ->
+  eval sch (q_frags q) fuel (TNamed root) (Some (q_sel q)) data <> EShape.
+Proof.
+  intros Hc Hp Hty.
+  destruct (convert_certified v doc vars q c Hc) as [d [T1 [T2 [T3 _]]]].
+  unfold prepare, prepare_run in Hp.
+  destruct (prep_list sch (pq_item v' (S (List.length (q_frags q))) sch (q_frags q)) root {| p_seen := []; p_cost := 0 |} (q_sel q))
+    as [st'| |] eqn:E; try discriminate.
+  destruct (prepare_certificate sch (q_frags q) v' root (q_sel q) st' E) as [Hs Ho].
+  apply (proj1 (eval_progress sch (q_frags q) (p_seen st') d Hs T1 T2 T3 fuel) false); auto.
+Qed.
